@@ -120,3 +120,47 @@ package mapping
 //@   requires v != nil
 //@   ensures implies(opts == nil || !opts.Inherit, typeIs(result, simpleValuer))
 //@   ensures implies(opts != nil && opts.Inherit, typeIs(result, recursiveValuer))
+
+// ---------------------------------------------------------------------------------------------
+// C08 primitive paths: validate-before-set. Every sink that writes the target is reached only on paths on which the
+// validators returned nil for the very value being set and the very option set of the field.
+// ---------------------------------------------------------------------------------------------
+//@ func (o *fieldOptionsWithContext) options
+//@   property C08
+//@   ensures implies(o == nil, len(result) == 0)
+//@   ensures implies(o != nil, sameSlice(result, o.Options))
+//@   modifies nothing
+//@ func (o *fieldOptionsWithContext) getDefault
+//@   property C08
+//@   results def, ok
+//@   ensures ok == (o != nil && len(o.Default) > 0)
+//@   ensures implies(ok, def == o.Default)
+//@   modifies nothing
+//@ func (o *fieldOptionsWithContext) fromString
+//@   property C08
+//@   ensures result == (o != nil && o.FromString)
+//@   modifies nothing
+
+//@ func validateJsonNumberRange
+//@   property C08
+//@   float ieee
+//@   requires implies(opts != nil && opts.Range != nil, !isNaN(opts.Range.left) && !isNaN(opts.Range.right))
+//@   ensures  implies(result == nil, opts == nil || opts.Range == nil || inRange(v.Float64(), opts.Range))
+//@   modifies nothing
+
+// the text compared with the declared options is the value itself (strings) or its canonical representation
+//@ func Repr
+//@   property C08
+//@   pure
+//@   ensures result == lang.Repr(v)
+//@   modifies nothing
+//@ func validateValueInOptions
+//@   property C08
+//@   ghost at entry: oc = false
+//@   ghost at after Contains#0: oc = ret
+//@   ghost at after Contains#1: oc = ret
+//@   call Contains#*: assert sameSlice(arg_list, options)
+//@   call Contains#0: assert boxed(arg_str) == val
+//@   call Contains#1: assert arg_str == Repr(val)
+//@   ensures implies(result == nil && len(options) > 0, oc)
+//@   modifies nothing
